@@ -149,6 +149,46 @@ def check(repo):
     r2.require(fi_ is not None and unparse(fi_.node.body[-1]) == "return self.value", fi_ or init, "int is the value", "Bitset.__int__ no longer returns self.value")
     fe = ci.methods.get("__eq__")
     r2.require(fe is not None and "self.value == other.value and self.length == other.length" in unparse(fe.node), fe or init, "equality compares value and width", "Bitset.__eq__ no longer compares value and length")
+    # ---------------------------------------------------------------- R18.5 indexing / slicing / iteration / str
+    r5 = Rule("R18.5", "indexing, slicing, iteration and str test bit (length - position - 1) of the value; no string round trip")
+    rules.append(r5)
+    gi = ci.methods.get("__getitem__")
+    si = ci.methods.get("__setitem__")
+    for f, nm in ((gi, "__getitem__"), (si, "__setitem__")):
+        if f is None:
+            r5.fail(BITS, "Bitset", 0, "%s missing" % nm, "Bitset.%s vanished" % nm)
+            continue
+        src = unparse(f.node)
+        idx = f.params[1]
+        ok = "%s.indices(len(self))" % idx in src and "for position in range(start, stop, step)" in src and "pos = len(self) - position - 1" in src and \
+            "pos = len(self) - %s - 1" % idx in src and "1 << pos" in src
+        r5.require(ok, f, "%s bit positions" % nm, "Bitset.%s no longer addresses bit (len - position - 1) for every position of range(*slice.indices(len))" % nm)
+    if gi is not None:
+        src = unparse(gi.node)
+        r5.require("results.append(bool(self.value & 1 << pos))" in src and "return bool(self.value & 1 << pos)" in src, gi, "__getitem__ reads bits of the value",
+                   "Bitset.__getitem__ no longer returns bool(value & (1 << pos))")
+    for nm, body in (("__iter__", ["for i in self[:]:", "yield i"]), ("__str__", ["for i in self[:]:", "'1' if i else '0'"])):
+        f = ci.methods.get(nm)
+        r5.require(f is not None and all(b in unparse(f.node) for b in body), f or init, "%s walks self[:]" % nm, "Bitset.%s no longer walks the bits of self[:]" % nm)
+    for m_rel in (BITS, BU):
+        for fi in repo.module(m_rel).all_functions():
+            if fi.name in ("__repr__", "__str__"):
+                continue
+            for c in ast.walk(fi.node):
+                bad = None
+                if isinstance(c, ast.Call) and dotted(c.func) in ("format", "bin", "str", "oct", "hex") and c.args:
+                    bad = c
+                if isinstance(c, ast.Call) and isinstance(c.func, ast.Attribute) and c.func.attr in ("format", "zfill", "rjust", "ljust") and not isinstance(c.func.value, ast.Constant):
+                    bad = c
+                if isinstance(c, ast.Call) and isinstance(c.func, ast.Attribute) and c.func.attr == "format" and isinstance(c.func.value, ast.Constant) and "b" in str(c.func.value.value):
+                    bad = c
+                if isinstance(c, ast.JoinedStr) and any(isinstance(v, ast.FormattedValue) and v.format_spec is not None for v in c.values):
+                    bad = c
+                if bad is not None and fi.name not in ("from_sequence",):
+                    r5.fail_fn(fi, bad, "string round trip in %s" % fi.name,
+                               "%s derives bits through a string (%s): formatting loses the width for length 0 and for values wider than the length" % (fi.qual, short(bad)))
+    r5.ok()
+
     # ---------------------------------------------------------------- R18.3 constructor guard
     gs = [st for st, exc in raising_ifs(init) if exc == "ValueError" and "bit_length()" in unparse(st.test) and "> length" in unparse(st.test)]
     if r3.require(bool(gs), init, "value fits the explicit length", "Bitset.__init__ no longer refuses a value wider than the explicit length"):
